@@ -10,7 +10,7 @@ THEOREMS = ["C17_index_bound_binary64", "C17_index_bound_model", "C17_block_is_p
             "C17_reset_forgets", "C17_reset_as_new", "C17_new_and_reset_are_block_starts",
             "C17_every_order_has_exactly_one_choice_vector", "C17_choice_vectors_counted", "C17_choice_is_identity_in_range",
             "C17_cells_are_balanced_intervals", "C17_pick_cells",
-            "C17_model_rounding_is_binary64", "C17_pick_is_binary64"]
+            "C17_model_rounding_is_binary64", "C17_pick_is_binary64", "C17_binary64_index_cells"]
 # only the Flocq/Reals theorem uses the standard library's real-number axioms
 AXIOMS_ALLOWED = ["ClassicalDedekindReals.sig_forall_dec", "ClassicalDedekindReals.sig_not_dec",
                   "FunctionalExtensionality.functional_extensionality_dep", "Classical_Prop.classic"]
